@@ -242,6 +242,8 @@ def run(ctx):
     RT.grams_from_whole_words(ctx, "R13.f")
     RT.candidate_cap(ctx, "R13.f", minimum=1)
     RT.every_posting_counted(ctx, "R13.f")
+    RT.counters(ctx, "R13.f")
+    RT.only_store_add_feeds_index(ctx, "R13.f")
     RT.positivity_filter(ctx, "R13.f")
     RT.postings_unconditional(ctx, "R13.f")
     # the tokeniser's per-word stages visit every word (a stale stem makes a word unmatchable); caches are coherent
